@@ -13,7 +13,12 @@ package time
 //@   modifies nothing
 //@   ensures [C07.iso.short] len(from) < 2 ==> err != nil
 //@   ensures [C07.iso.norep] (err == nil && from[0] != 'R') ==> repetition == -1
+// "malformed input is reported through the returned error": an accepted duration ends with a unit designator -- digits
+// without a unit or any other trailing character are refused (repaired defect: they used to be dropped silently)
+//@   ensures [C07.iso.trailing] (err == nil && len(from) >= 2 && from[0] == 'P') ==> (from[len(from)-1] == 'Y' || from[len(from)-1] == 'M'
+//@        || from[len(from)-1] == 'W' || from[len(from)-1] == 'D' || from[len(from)-1] == 'H' || from[len(from)-1] == 'S' || from[len(from)-1] == 'T')
 //@   loop 0 invariant 1 <= start && start <= i && i <= l && l == len(from)
+//@   loop 0 invariant from[0] == 'P' ==> (start == 1 || from[start-1] == 'Y' || from[start-1] == 'M' || from[start-1] == 'W' || from[start-1] == 'D' || from[start-1] == 'H' || from[start-1] == 'S' || from[start-1] == 'T')
 //@   loop 0 decreases l - i
 //@   loop 1 invariant 0 <= i && i < l && l == len(from)
 //@   loop 1 decreases l - i
